@@ -159,10 +159,29 @@ def build(tier):
     pv, pf = percentile_vcs()
     return {
         'targets': targets, 'vcs': pv, 'functions': pf, 'bounded': [tpos],
-        'decided': ['histogram_t::update: bins = thresholds+1 slots, the bins are consecutive ranges of the sorted values that tile them exactly once, a value lies in bin b only if t_{b-1} <= v < t_b, count = range length; update_bin: count/mean/median over exactly its range, NaN for an empty bin', 'the position->value lambdas of percentile_sorted (value stored at the position) and percentile (k-th smallest via nth_element); median / median_sorted are the 50th percentile', 'detail::percentile (all instantiations): result is the sorted value at position p(n-1)/100 (midpoint when fractional), positions stay in [0, n-1] (over the reals, n <= 2^46)', 'bin(v) equals the counting rule #{j: t_j <= v} for every finite real v and every integer |v| <= 2^53, for every sorted threshold list of symbolic length'],
-        'not_decided': ['float value of the bin means', 'make_from_exponents (log/pow)'],
-        'assumptions': ['std::nth_element leaves at position nth the element a full sort would put there (assumed contract)', 'IEEE double treated as real for the percentile position arithmetic', 'std::upper_bound returns the partition point of a partitioned range (assumed contract, stated at a ghost index)',
-                        'thresholds are sorted and not NaN (established by the constructor: std::sort)'],
+        'decided': ['histogram_t::update (double, int64, int32, int16 samples; int8 in the thorough tier): bins = thresholds+1 slots in buffers of their own, the bins are consecutive ranges of the sorted values that tile them exactly once, a value lies in bin b only if t_{b-1} <= v < t_b and -- the thresholds being sorted -- only if b = #{j : t_j <= v} (the counting rule of bin(v), at a ghost threshold), count = range length; the precondition of its std::upper_bound calls (range partitioned w.r.t. the comparator) follows from the sorted values',
+                    'update_bin: count / mean / median over exactly its range, NaN for an empty bin; mean is called with count == distance(begin, end) > 0',
+                    'histogram_t::mean for int8 / int16 / int32 / int64 / double samples: the accumulator of std::accumulate has type scalar_t (the type of init), starts at 0, every step of the fold adds the element CONVERTED to scalar_t (the extracted lambda, with CBMC\'s overflow / conversion obligations), the result is that sum divided by count; update_bin stores exactly this value',
+                    'constructor histogram_t(begin, end, thresholds) (int16 / int32 / int64 / double samples; int8 thorough): establishes the representation invariant (values sorted, thresholds sorted and not NaN, at ghost indices, from std::sort\'s contract), owns the thresholds it was given, and calls update() INSIDE its precondition (update is replaced by its contract: every requires clause is an obligation at the call site); its postcondition is the partition / counting-rule clause of the property for thresholds given directly',
+                    'make_from_thresholds (int64 samples; int16 / int32 / double thorough): constructs exactly one histogram over the WHOLE value list with the thresholds it was given, inside the constructor\'s precondition (constructor replaced by its contract)',
+                    'the position->value lambdas of percentile_sorted (value stored at the position) and percentile (k-th smallest via nth_element)',
+                    'median / median_sorted against the sorted-array reference: the middle order statistic for odd n, the mean of the two middle ORDER STATISTICS for even n; std::nth_element is given exactly its standard contract (nth is the order statistic, left part <=, right part >=, nothing about the order inside the parts), so `*std::prev(middle)` after one nth_element is refuted while `*std::max_element(begin, middle)` and the library\'s own two-call version are proved; std::prev / next / advance / distance on the pointer iterators',
+                    'detail::percentile (all instantiations, now also those of the integer histograms): result is the sorted value at position p(n-1)/100 (midpoint when fractional), positions stay in [0, n-1] (over the reals, n <= 2^46); lemma: at p = 50 that rule is the median reference',
+                    'bin(v) equals the counting rule #{j: t_j <= v} for every finite real v and every integer |v| <= 2^53, for every sorted threshold list of symbolic length'],
+        'not_decided': ['float value of the bin means (rounding of the scalar_t fold; + and / are uninterpreted: the SHAPE sum/count is decided)',
+                        'make_from_percentiles / make_from_ratios: contracts are written (specs/C20/factory.h: percentile_sorted called inside its precondition, threshold_i = percentile_sorted(p_i) / min + r_i (max - min), constructor called on the whole list) but NOT wired: make_from_ratios dereferences the `begin` parameter while the block is owned by the ghost pointer (CBMC: a pointer known only through an equality has no points-to set) and the double-sample targets exceed 100 s of SAT time',
+                        'make_from_exponents (log / pow), make_equidistant_* (src/core/histogram.cpp)',
+                        'the percentile / percentile_sorted WRAPPERS (capture initialisers of the lambdas handed to detail::percentile) are composed by hand in the stubs of median / median_sorted (NV_MEDIAN_OF), not extracted',
+                        'that the sorted values are a permutation of the input (std::sort\'s other clause; not used by any obligation)',
+                        'x / 2 rewritten as 0.5 * x in the fractional percentile (exact in IEEE, different uninterpreted terms: would be a false alarm)'],
+        'assumptions': ['std::nth_element: the range is permuted, *nth is the element a full sort would put there (for the whole list, and for the left / right part of an earlier partition of the whole list), elements before are <=, elements after are >= (assumed contract, at a ghost position); std::max_element returns a maximal element (on the left part of a partition at k: the order statistic k-1)',
+                        'std::sort (operator<): given its precondition (no NaN among the elements: the property quantifies over lists of integers / reals) the range is ascending afterwards (assumed contract, at ghost positions; nothing else about the havocked range)',
+                        'std::accumulate(first, last, init[, op]): T acc = init with T the type of init; acc = op(acc, *it) / acc + *it for every element in order (assumed contract; one generic step of the fold is checked on the extracted lambda); IEEE + is commutative',
+                        'std::prev / std::next without a distance move by 1 ([iterator.operations]); pointer iterators',
+                        'IEEE double treated as real for the percentile position arithmetic',
+                        'std::upper_bound / lower_bound return the partition point of a partitioned range (assumed contract, stated at a ghost index; the partition precondition itself is now an obligation in update)',
+                        'bin(v): thresholds are sorted and not NaN (established by the constructor: proved, see ctor_*) and counts.size == thresholds.size + 1 (established by update: proved)',
+                        'malloc succeeds in the tensor resize stubs'],
         'trusted': [],
     }
 
